@@ -3,6 +3,7 @@
 package main
 
 import (
+	"sync"
 	"crypto/aes"
 	"crypto/cipher"
 	"encoding/base64"
@@ -411,12 +412,149 @@ func driveC02(t *testing.T, out *vEmitter) {
 			if e.redis != nil {
 				vStoreScan(out, e, own, sOwn)
 			}
+			vResaveScan(out, e, host, own, sOwn)
 			for _, m := range vMutations(own, other, foreign, name+"_csrf", dense, r) {
 				vLoadCase(out, e, host, m, own, sOwn, other, sOther)
 			}
 		}
 	}
 	vCsrfTamper(t, out, r)
+	vConcurrentIssue(t, out)
+}
+
+// vConcurrentIssue: sessions issued to different users at the same time.  Whatever the interleaving, the credential
+// handed to a request decodes to exactly the session of that request (both stores).
+func vConcurrentIssue(t *testing.T, out *vEmitter) {
+	for _, redis := range []bool{false, true} {
+		e := vNewEnv(t, vEnvCfg{redis: redis, mod: func(o *options.Options) { o.Cookie.Refresh = 0 }})
+		workers, rounds := vPick(8, 16), vPick(120, 1500)
+		var wg sync.WaitGroup
+		var mu sync.Mutex
+		wrong, total := 0, 0
+		var first map[string]interface{}
+		for w := 0; w < workers; w++ {
+			wg.Add(1)
+			go func(w int) {
+				defer wg.Done()
+				for i := 0; i < rounds; i++ {
+					created := time.Now()
+					s := &sessionsapi.SessionState{CreatedAt: &created, Email: fmt.Sprintf("user-%d-%d@example.com", w, i), User: fmt.Sprintf("u%d", w),
+						AccessToken: fmt.Sprintf("at-%d-%d-%s", w, i, strings.Repeat("x", 40+(w*37+i)%300)), Groups: []string{fmt.Sprintf("g%d", w)}}
+					rw := httptest.NewRecorder()
+					if err := e.p.sessionStore.Save(rw, vReqWith("app.example.com", nil), s); err != nil {
+						continue
+					}
+					var cs []vNV
+					for _, c := range (&http.Response{Header: rw.Header()}).Cookies() {
+						cs = append(cs, vNV{c.Name, c.Value})
+					}
+					got, err := e.p.sessionStore.Load(vReqWith("app.example.com", cs))
+					mu.Lock()
+					total++
+					if err != nil || got == nil || got.Email != s.Email || got.AccessToken != s.AccessToken || got.User != s.User {
+						wrong++
+						if first == nil {
+							first = map[string]interface{}{"redis": redis, "issued_for": s.Email, "error": fmt.Sprint(err)}
+							if got != nil {
+								first["decodes_to"] = got.Email
+							}
+						}
+					}
+					mu.Unlock()
+				}
+			}(w)
+		}
+		wg.Wait()
+		out.Obs("concurrent-issue", true, vL(vBool(redis), vI(int64(total)), vI(int64(wrong))))
+		out.Stat("concurrent_issues", total)
+		if wrong > 0 {
+			first["wrong"], first["of"] = wrong, total
+			out.Violation("tamper/issued-credential-decodes-to-other-session", "a credential issued to one request decodes to another request's session (concurrent saves)", first)
+		}
+	}
+}
+
+// vResaveScan: the same session saved again by a request that presents its credential (what a refresh does; the
+// server-side store then reuses the ticket's key and secret).  Two ciphertexts of nearly the same plaintext must
+// not be related: where their XOR is mostly zero the key stream was reused and one version reveals the other.
+func vResaveScan(out *vEmitter, e *vEnv, host string, own []vNV, s *sessionsapi.SessionState) {
+	blobs := func() map[string][]byte {
+		m := map[string][]byte{}
+		if e.redis != nil {
+			e.redis.mu.Lock()
+			for k, ent := range e.redis.data {
+				m["store:"+k] = append([]byte(nil), ent.val...)
+			}
+			e.redis.mu.Unlock()
+		}
+		return m
+	}
+	cookieBlobs := func(cs []vNV) map[string][]byte {
+		m := map[string][]byte{}
+		joined := ""
+		for _, c := range cs {
+			joined += c.v // split parts in order
+		}
+		if f := strings.SplitN(joined, "|", 2); len(f) == 2 {
+			if raw, err := base64.URLEncoding.DecodeString(f[0]); err == nil {
+				m["cookie"] = raw
+			}
+		}
+		return m
+	}
+	before := blobs()
+	for k, v := range cookieBlobs(own) {
+		before[k] = v
+	}
+	s2 := *s
+	s2.AccessToken = s.AccessToken + "-rotated"
+	rw := httptest.NewRecorder()
+	if err := e.p.sessionStore.Save(rw, vReqWith(host, own), &s2); err != nil {
+		return
+	}
+	var again []vNV
+	for _, c := range (&http.Response{Header: rw.Header()}).Cookies() {
+		if c.MaxAge >= 0 && c.Value != "" {
+			again = append(again, vNV{c.Name, c.Value})
+		}
+	}
+	after := blobs()
+	// put the original session back under the same ticket for the load cases that follow
+	_ = e.p.sessionStore.Save(httptest.NewRecorder(), vReqWith(host, own), s)
+	if e.redis == nil {
+		for k, v := range cookieBlobs(again) {
+			after[k] = v
+		}
+	}
+	out.Stat("resave_scans", 1)
+	for k, a := range before {
+		b, ok := after[k]
+		if !ok || len(a) < 48 || len(b) < 48 || string(a) == string(b) {
+			continue // not an entry this re-save wrote
+		}
+		n := len(a)
+		if len(b) < n {
+			n = len(b)
+		}
+		// compare front-aligned and back-aligned
+		for _, back := range []bool{false, true} {
+			zeros := 0
+			for i := 0; i < n; i++ {
+				x, y := a[i], b[i]
+				if back {
+					x, y = a[len(a)-1-i], b[len(b)-1-i]
+				}
+				if x == y {
+					zeros++
+				}
+			}
+			if zeros*10 > n { // unrelated ciphertexts agree on about 1 byte in 256
+				out.Violation("opaque/keystream-reused", "two saves of a session produce related ciphertexts (key stream reused): one version reveals the other",
+					map[string]interface{}{"where": k, "equal_bytes": zeros, "of": n, "back_aligned": back})
+				break
+			}
+		}
+	}
 }
 
 // vStoreScan: entries of the server-side store must not be readable from the store alone.
